@@ -201,6 +201,13 @@ def frame_of(gt, rng):
         for r in per_ind:
             allrows += r
     df = pd.DataFrame(allrows)
+    # row labels carry no meaning: default labels, repeated labels (frames concatenated without ignore_index, e.g. measurements and dose
+    # tables, or the tables that chi's own predictive models return), or arbitrary unordered labels
+    mode = gt.get('index', len(allrows) % 3)
+    if mode == 1:
+        df.index = [k % 3 for k in range(len(df))]
+    elif mode == 2:
+        df.index = [int(v) + 100 for v in rng.permutation(len(df))]
     if gt['junk']:
         df['site'] = ['A' if k % 2 else 'B' for k in range(len(df))]
         df['comment'] = np.nan
@@ -308,6 +315,18 @@ def run_case(real, gt, rng, mech='toy'):
     with warnings.catch_warnings():
         warnings.simplefilter('ignore')
         try:
+            if len(gt['ids']) % 2 == 0 or gt.get('primed'):
+                # the controller has been used for an earlier dataset (same individuals, other dose rows and values), incl. its regimens:
+                # nothing of it may survive the next set_data
+                import copy as _copy
+                gt0 = _copy.deepcopy(gt)
+                for ind0 in gt0['ind'].values():
+                    ind0['doses'] = [(st + 0.25, 2.0 * a + 1.0, d) for (st, a, d) in ind0['doses'][:-1]] + [(0.125, 7.5, 0.5)]
+                    for o_ in ind0['meas']:
+                        ind0['meas'][o_] = [(t_, y_ + 50.0) for (t_, y_) in ind0['meas'][o_]]
+                df0, _, _ = frame_of(gt0, np.random.default_rng(5))
+                ctrl.set_data(df0, output_observable_dict=oo, **kw)
+                ctrl.get_dosing_regimens()
             if pop is not None and gt['interleave']:
                 ctrl.set_population_model(pop)          # population model before the data ...
                 ctrl.set_data(df, output_observable_dict=oo, **kw)
